@@ -10,7 +10,9 @@ implementations are compared with each other.
 import os
 import random
 
-from vf import build_nvx, utf8_ref
+import gc
+
+from vf import build_nvx, c09_lifecycle, utf8_ref
 from vf.runner import h
 
 PROPERTY = "C09"
@@ -20,17 +22,33 @@ EXHAUSTIVE = False
 RULE = ("exhaustive: every (DFA state reached by a canonical prefix) x (probe byte 0..255) x 3 feeding modes, "
         "all byte strings of length <=2 under every chunking (length 3 in the thorough tier, sharded by first "
         "byte); generated: valid/invalid mixtures of all ill-formed classes under random chunkings incl. empty "
-        "chunks, every split point of short strings, reset() reuse, 16 buffer alignments for the native code. "
+        "chunks, every split point of short strings, reset() reuse, 16 buffer alignments for the native code; "
+        "object lifecycle: (end state of a discarded validator: every DFA state, every ill-formed class, rejection on "
+        "the very first octet) x (dropped by refcount | in a reference cycle + gc) x (successor used without reset() | "
+        "after reset() | as a one-shot temporary) x probe, batches of validators alive together and replaced together, "
+        "random programs of new/feed/reset/drop/gc/temporary operations over up to 5 live objects. "
         "A case is non-trivial when at least one multi-byte sequence or one rejecting byte is involved; distinct "
         "= distinct (bytes, chunking) hash.")
 ASSUMPTIONS = [
     "reference = Unicode Table 3-7 (vf/utf8_ref.py), cross-checked against CPython's strict incremental decoder before use",
     "NVX modules are rebuilt from src/autobahn/nvx/*.c of the current tree (ship flags and clang ASan+UBSan); the prebuilt site-packages .so are never used",
     "after a rejecting call only 'still reported invalid for non-empty chunks' and agreement between implementations are asserted",
+    "a newly constructed validator is in the start state without reset() (the pure-Python constructor calls reset(), nvx_utf8vld_new() "
+    "does, and the library's own consumer WebSocketProtocol.onCloseFrame relies on it); each object validates its OWN octets since its "
+    "own construction/reset(), whatever other validator objects, alive or already discarded, have seen",
     "the SSE2/SSE4.1 validator functions in the C file are not reachable through the exported API (dispatch maps them to the table DFA) and are therefore not driven",
 ]
 DECIDING = {"returns_compared": 1000, "impl_nvx_table": 1, "impl_nvx_unrolled": 1, "impl_pure": 1,
-            "rejections_observed": 100, "sticky_calls": 50}
+            "rejections_observed": 100, "sticky_calls": 50,
+            # object-lifecycle dimension (vf/c09_lifecycle.py)
+            "lifecycle_returns_compared": 1000,        # validate() returns of lifecycle programs compared with the reference
+            "lifecycle_fresh_first_calls": 200,        # first call on an object that was never reset()
+            "lifecycle_fresh_after_dirty_dead": 100,   # ... constructed after another object was finalised in a non-start state
+            "lifecycle_tmp_calls": 50,                 # ... as a one-shot temporary (the onCloseFrame pattern)
+            "lifecycle_interleaved_calls": 100,        # calls while another live object is mid-sequence/rejected or was called in between
+            "lifecycle_dead_states": 5,                # distinct: end state of the most recently finalised predecessor (start, complete,
+                                                       # incomplete, reject-at-0, reject-later)
+            "lifecycle_sticky_calls": 20}
 
 # canonical prefixes reaching each DFA state (Hoehrmann numbering is irrelevant here: the reference
 # classifies states by "what may follow")
@@ -277,6 +295,10 @@ def run_shard(params, R):
         for _ in range(300):
             s = gen_mixture(rng, 12)
             mon.run_case(random_chunking(rng, s), "selected-class")
+        # the class the library really instantiates (per connection, and one-shot in onCloseFrame): object lifecycle
+        sel = mon.impls[0]
+        run_lifecycle(R, {"selected": cls}, lambda name, chunks: _isolated(sel, chunks), params["flavour"],
+                      rng, 0, 1, 60 if params["tier"] == "quick" else 600)
         for k in ("returns_compared", "impl_nvx_table", "impl_nvx_unrolled", "impl_pure", "rejections_observed", "sticky_calls"):
             R.count(k, 0)
         return
@@ -356,6 +378,47 @@ def run_shard(params, R):
             im.reset()
             im.feed(pre)
         mon.run_case([b"ok\xc3\xa9"], "reset-reuse")
+    # E. object lifecycle: fresh objects (no reset) after discarded ones, several alive, one-shot temporaries
+    by_name = {im.name: im for im in impls}
+    run_lifecycle(R, _factories(), lambda name, chunks: _isolated(by_name[name], chunks), params["flavour"],
+                  rng, part, parts, 60 if tier == "quick" else 1500)
+
+
+def _factories():
+    """Implementation name -> callable that constructs a NEW validator object the way a user does."""
+    from autobahn.websocket.utf8validator import Utf8Validator as Pure
+    from autobahn.nvx._utf8validator import Utf8Validator as Nvx
+    assert Pure.__module__ == "autobahn.websocket.utf8validator"
+
+    def nvx(impl):
+        def make():
+            v = Nvx()
+            got = v.lib.nvx_utf8vld_set_impl(v._vld, impl)
+            assert got == impl, (impl, got)
+            return v
+        return make
+    return {"pure": Pure, "nvx_default": Nvx, "nvx_table": nvx(1), "nvx_unrolled": nvx(2)}
+
+
+def _isolated(im, chunks):
+    im.reset()
+    return [im.feed(c) for c in chunks]
+
+
+def run_lifecycle(R, factories, isolated, flavour, rng, part, parts, n_random):
+    lm = c09_lifecycle.LifecycleMonitor(R, factories, flavour, isolated)
+    gc.collect()
+    gc.freeze()          # keeps the gc.collect() of the programs cheap (only objects created from here on are scanned)
+    try:
+        for i, (kind, ops) in enumerate(c09_lifecycle.matrix_programs(PREFIXES, ILL)):
+            if i % parts == part:
+                lm.run_program(ops, kind)
+        for i in range(n_random // 4):
+            lm.run_program(c09_lifecycle.batch_program(rng, PREFIXES, ILL, rng.randint(2, 6)), "lifecycle-batch")
+        for i in range(n_random):
+            lm.run_program(c09_lifecycle.random_program(rng, WELL, ILL), "lifecycle-random")
+    finally:
+        gc.unfreeze()
 
 
 def _wrap_selected(cls):
@@ -378,6 +441,13 @@ def replay(case, R):
     build_nvx.assert_fresh()
     impls = [Impl("pure"), Impl("nvx_default"), Impl("nvx_table"), Impl("nvx_unrolled")]
     mon = Monitor(R, impls, "replay")
+    if "lifecycle" in case:
+        by_name = {im.name: im for im in impls}
+        lm = c09_lifecycle.LifecycleMonitor(R, _factories(), "replay", lambda name, chunks: _isolated(by_name[name], chunks))
+        for ops in case.get("prelude", []):
+            lm.run_program(ops, "replay-prelude")
+        lm.run_program(case["lifecycle"], "replay")
+        return
     mon.run_case([bytes.fromhex(c) for c in case["chunks"]], "replay", align=case.get("align"))
 
 
@@ -386,7 +456,9 @@ MANIFEST_ENTRY = {
              "NVX rebuilt from the tree with the repository's flags and with clang ASan+UBSan) is compared online with an "
              "independent RFC 3629 reference and with the other implementations: exhaustively for every DFA transition and "
              "all strings of length <=2 (<=3 thorough) under every chunking, plus generated mixtures, random chunkings, "
-             "16 buffer alignments. Held = no mismatch on the executions listed in the evidence; not a proof."),
+             "16 buffer alignments; and for validator OBJECTS: newly constructed validators used without reset() after "
+             "predecessors were discarded in every end state, several validators alive and fed interleaved, one-shot "
+             "temporaries (each object judged on its own octets). Held = no mismatch on the executions listed in the evidence; not a proof."),
     "note": "trusts vf/utf8_ref.py (Unicode Table 3-7, self-checked against CPython's decoder at start-up), cffi, clang sanitizer runtime; SSE2/SSE4.1 functions are unreachable through the exported API and not driven",
     "technique": "runtime monitoring: differential oracle (RFC 3629 reference + cross-implementation) over exhaustive/generated inputs, ASan+UBSan build of the C code",
 }
